@@ -102,10 +102,11 @@ NEEDS.update(json.load(open(os.path.join(os.path.dirname(__file__), 'r7_needs.js
 NEEDS.update(json.load(open(os.path.join(os.path.dirname(__file__), 'r8_needs.json'))))
 NEEDS.update(json.load(open(os.path.join(os.path.dirname(__file__), 'r9_needs.json'))))
 NEEDS.update(json.load(open(os.path.join(os.path.dirname(__file__), 'r10_needs.json'))))
+NEEDS.update(json.load(open(os.path.join(os.path.dirname(__file__), 'r11_needs.json'))))
 # changes whose description showed that the generator could not reach them; strengthened before their first run
 PRE_STRENGTHENED = {"C06r2-A", "C06r2-B", "C17r3-A", "C18r3-B", "C06r3-A"}
 results = {}
-for f in sorted(glob.glob("/tmp/amut*.out.json")) + sorted(glob.glob("/tmp/bmut*.out.json")) + sorted(glob.glob("/tmp/cmut*.out.json")) + ["/tmp/dmut1.first.json", "/tmp/dmut2.out.json", "/tmp/emut1.first.json", "/tmp/emut2.out.json", "/tmp/emut3.out.json", "/tmp/fmut1.first.json", "/tmp/fmut2.out.json", "/tmp/gmut1.first.json", "/tmp/gmut2.out.json", "/tmp/gmut3.out.json", "/tmp/hmut1.first.json", "/tmp/hmut2.out.json", "/tmp/imut1.first.json", "/tmp/imut2.out.json", "/tmp/imut3.out.json", "/tmp/imut4.out.json", "/tmp/jmut1.first.json", "/tmp/jmut2.out.json"]:
+for f in sorted(glob.glob("/tmp/amut*.out.json")) + sorted(glob.glob("/tmp/bmut*.out.json")) + sorted(glob.glob("/tmp/cmut*.out.json")) + ["/tmp/dmut1.first.json", "/tmp/dmut2.out.json", "/tmp/emut1.first.json", "/tmp/emut2.out.json", "/tmp/emut3.out.json", "/tmp/fmut1.first.json", "/tmp/fmut2.out.json", "/tmp/gmut1.first.json", "/tmp/gmut2.out.json", "/tmp/gmut3.out.json", "/tmp/hmut1.first.json", "/tmp/hmut2.out.json", "/tmp/imut1.first.json", "/tmp/imut2.out.json", "/tmp/imut3.out.json", "/tmp/imut4.out.json", "/tmp/jmut1.first.json", "/tmp/jmut2.out.json"] + sorted(glob.glob("/tmp/kmut*.out.json")):
     for r in json.load(open(f)):
         results.setdefault(r["name"], []).append({"campaign": os.path.basename(f), "caught_by_expected": r.get("caught_by_expected"), "fired": r.get("fired", {}), "cross_talk": r.get("cross_talk")})
 for name, needs in sorted(NEEDS.items()):
